@@ -1,7 +1,7 @@
 // Failing-medium histories (phase 4): some WriteSector calls run on a medium whose k-th I/O call fails (a
-// failing write of more than 4 bytes may first store a prefix).  Predicate: the error is returned, and every
-// chunk that never had a failed write keeps reading back its last bytes through the same object and after a
-// reopen, and never shares a sector with any other header entry of the file.  The model line is produced by
+// failing write of more than 4 bytes may first store a prefix).  Predicate: the error is returned; every chunk
+// whose LAST write succeeded reads back its last bytes through the same object, in the file and after a reopen
+// (also when an earlier write of it failed); no sector is ever named by two header entries of the file.  The model line is produced by
 // the INTERPRETATION of the translated WriteSector on the failing medium (Proofs/C14_skel_fail.v).
 package main
 
@@ -49,7 +49,7 @@ func runFailHistory(o *hx.Out, hid int, ops []rx.Op) {
 			}
 			sec, cnt := w>>8, w&0xff
 			for k := sec; k < sec+cnt; k++ {
-				if j, ok := owner[k]; ok && (!tainted[j] || !tainted[c]) {
+				if j, ok := owner[k]; ok {
 					fail("C14.fail.overlap", "%s: sector %d is named by the header entries of chunks %d and %d (failed writes only on: %v)", desc(i), k, j, c, keys(tainted))
 				}
 				owner[k] = c
@@ -101,8 +101,10 @@ func runFailHistory(o *hx.Out, hid int, ops []rx.Op) {
 					fail("C14.fail.swallowed", "%s: an injected I/O error was not returned (result %s)", desc(i), cls)
 				}
 				tainted[c] = true
-			} else if cls == "ok" && !tainted[c] {
+			} else if cls == "ok" {
+				// a successful write restores the chunk, also after earlier failed writes of it
 				expected[c] = data
+				delete(tainted, c)
 			} else if cls == "other" {
 				fail("C14.fail.write", "%s: %v", desc(i), err)
 			}
